@@ -19,7 +19,9 @@ Next == \/ a = NoVal /\ a' \in Ts /\ b' = b
         \/ a # NoVal /\ b = NoVal /\ b' \in Ts /\ a' = a
 Spec == Init /\ [][Next]_vars
 Ready == a # NoVal /\ b # NoVal          \* laws with angles are evaluated in these states
-Once == a = 0 /\ b = 0                   \* laws without angles in this one
+Once == a = 0 /\ b = 0                   \* laws without angles in this one ...
+\* ... or, when there are several values of a, spread over the states (k, 0) for TLC's workers
+At(k) == a = (IF MaxT >= 1 THEN k ELSE 0) /\ b = 0
 
 \* ring-valued matrices
 RECURSIVE ESum(_, _)
@@ -35,7 +37,7 @@ IsUnitary(M) == LET A == RMat(M) IN
 \* U^dagger U = 1 for every documented matrix (angles a, b and the half-angle partners a + 8k)
 OnceA == Ready /\ b = 0                  \* laws with one angle: once per value of a
 Unitarity ==
-    /\ Once => \A g \in GateNames : NAngles(g) = 0 => IsUnitary(Mat(g, <<>>))
+    /\ At(-1) => \A g \in GateNames : NAngles(g) = 0 => IsUnitary(Mat(g, <<>>))
     /\ OnceA => \A g \in GateNames : NAngles(g) = 1 => IsUnitary(Mat(g, <<a>>)) /\ IsUnitary(Mat(g, <<a + 8>>))
     /\ Ready => IsUnitary(Mat("phased_x", <<a, b>>))
 \* the CH matrix exactly as printed in its docstring (1/sqrt2 in front of all 16 entries) is
@@ -58,14 +60,14 @@ Paulis == Once => \A q \in Qubits :
     /\ Same(<<g1("h", q), g1("h", q)>>, <<>>)
     /\ Same(<<g1("x", q), g1("x", q)>>, <<>>)
     /\ SamePh(<<g1("y", q)>>, <<g1("z", q), g1("x", q)>>, 4)                       \* Y = i XZ
-Phases == Once => \A q \in Qubits :
+Phases == At(1) => \A q \in Qubits :
     /\ Same(<<g1("s", q), g1("s", q)>>, <<g1("z", q)>>)                            \* S^2 = Z
     /\ Same(<<g1("t", q), g1("t", q)>>, <<g1("s", q)>>)                            \* T^2 = S
     /\ SamePh(<<g1("v", q), g1("v", q)>>, <<g1("x", q)>>, 12)                      \* V^2 = -iX
     /\ Same(<<g1("s", q), g1("sdg", q)>>, <<>>)
     /\ Same(<<g1("t", q), g1("tdg", q)>>, <<>>)
     /\ Same(<<g1("v", q), g1("vdg", q)>>, <<>>)
-RotationAnchors == Once => \A q \in Qubits :
+RotationAnchors == At(-1) => \A q \in Qubits :
     /\ SamePh(<<G("rx", <<q>>, <<4>>)>>, <<g1("x", q)>>, 12)                        \* Rx(pi) = -iX
     /\ SamePh(<<G("ry", <<q>>, <<4>>)>>, <<g1("y", q)>>, 12)
     /\ SamePh(<<G("rz", <<q>>, <<4>>)>>, <<g1("z", q)>>, 12)
@@ -84,7 +86,7 @@ QSystem1 == Ready => \A q \in Qubits :
             <<G("rz", <<q>>, <<0 - b>>), G("rx", <<q>>, <<a>>), G("rz", <<q>>, <<b>>)>>)
     /\ Same(<<G("qrz", <<q>>, <<a>>)>>, <<G("rz", <<q>>, <<a>>)>>)
 
-TwoQubit == (Once /\ NQ >= 2) => \A qs \in Assign(2) : LET c == qs[1] t == qs[2] IN
+TwoQubit == (At(1) /\ NQ >= 2) => \A qs \in Assign(2) : LET c == qs[1] t == qs[2] IN
     /\ Same(<<G("cx", qs, <<>>), G("cx", qs, <<>>)>>, <<>>)
     /\ Same(<<G("cz", qs, <<>>)>>, <<G("cz", <<t, c>>, <<>>)>>)                     \* CZ symmetric
     /\ Same(<<G("cz", qs, <<>>)>>, <<g1("h", t), G("cx", qs, <<>>), g1("h", t)>>)
@@ -115,7 +117,7 @@ ThreeQubit == (Once /\ NQ >= 3) => \A qs \in Assign(3) : LET c1 == qs[1] c2 == q
             <<G("cx", <<c2, t>>, <<>>)>>)
 
 \* measurement facts on basis states and uniform superpositions
-Projectors == Once => \A q \in Qubits, k \in Index, v \in {0, 1} :
+Projectors == At(-1) => \A q \in Qubits, k \in Index, v \in {0, 1} :
     LET s == Seq2(Basis(k), <<g1("h", q)>>, 1) IN
     /\ Possible(Basis(k), q, v) <=> Bit(k, q) = v
     /\ Possible(s, q, v)
